@@ -409,6 +409,203 @@ class ActiveMonitor : public Monitor {
   }
 };
 
+
+// ---------------------------------------------------------------------------------------------
+// C15: answer mode responds exactly to the telegrams it was configured for.
+class AnswerMonitor : public Monitor {
+ public:
+  AnswerMonitor(VSink* s, const Scenario& scn) : sink(s), sc(scn) {}
+  VSink* sink;
+  const Scenario& sc;
+  enum Ph { WAIT_SYN, IDLE, M, EXPECT_ACK, ACK_ECHO, RESP_SEND, RESP_ECHO, RESP_ACK, PASSIVE };
+  Ph ph = WAIT_SYN;
+  Bytes part;
+  uint8_t crc = 0;
+  bool esc = false, crcPos = false, good = false;
+  int attemptM = 1, attemptS = 1;
+  std::vector<int> cands;     // indices into sc.answers
+  uint8_t expectAck = 0;      // ACK or NAK
+  bool ackMust = false;
+  uint8_t lastW = 0;
+  size_t wpos = 0;
+  bool pendingReport = false;
+  Bytes reportMaster;
+  bool failed = false;
+
+  void fail(const std::string& sig, const std::string& detail) { if (!failed) sink->add("C15/" + sig, detail); failed = true; }
+  static std::string hx(uint8_t v) { char b[4]; snprintf(b, sizeof(b), "%02x", v); return b; }
+  const char* phName() const { static const char* n[] = {"wait-syn", "idle", "receiving", "expect-ack", "ack-echo", "response-send", "response-echo", "response-ack", "passive"}; return n[ph]; }
+  void resetPart() { part.clear(); crc = 0; esc = false; crcPos = false; good = false; }
+
+  // reference answer table lookup (from the statement): all registered answers matching with the longest ID
+  std::vector<int> lookup(const Bytes& m) const {
+    std::vector<int> best;
+    size_t bestLen = 0;
+    if (!sc.answer || sc.readOnly) return best;
+    size_t nn = m[4];
+    for (size_t i = 0; i < sc.answers.size(); i++) {
+      const AnswerSpec& a = sc.answers[i];
+      if (a.dst != m[1] || a.pb != m[2] || a.sb != m[3]) continue;
+      if (a.src >= 0 && (uint8_t)a.src != m[0]) continue;
+      if (a.id.size() > nn) continue;
+      bool eq = true;
+      for (size_t j = 0; j < a.id.size(); j++) if (m[5 + j] != a.id[j]) eq = false;
+      if (!eq) continue;
+      if (ref::isMaster(a.dst) && a.id.size() + (a.answer.empty() ? 0 : a.answer[0]) != nn) continue;
+      if (best.empty() || a.id.size() > bestLen) { best.clear(); bestLen = a.id.size(); }
+      if (a.id.size() == bestLen) best.push_back((int)i);
+    }
+    return best;
+  }
+  bool dstRegistered(uint8_t dst) const {
+    if (!sc.answer || sc.readOnly) return false;
+    for (auto& a : sc.answers) if (a.dst == dst) return true;
+    return false;
+  }
+
+  void onWrite(uint8_t v) override {
+    if (failed || dontCare) return;
+    switch (ph) {
+      case EXPECT_ACK:
+        if (v != expectAck) { fail(std::string("wrong-acknowledge/") + (expectAck == ref::ACK ? "expected-ack" : "expected-nak"), "wrote " + hx(v) + " after telegram " + ref::hex(part) + " (CRC " + (good ? "good" : "bad") + ")"); return; }
+        lastW = v; ph = ACK_ECHO;
+        return;
+      case RESP_SEND: {
+        std::vector<int> keep;
+        for (int c : cands) { Bytes w = ref::wirePart(sc.answers[c].answer); if (wpos < w.size() && w[wpos] == v) keep.push_back(c); }
+        if (keep.empty()) {
+          Bytes w = ref::wirePart(sc.answers[cands[0]].answer);
+          fail(std::string("wrong-response-symbol/") + (wpos + 1 >= w.size() ? "crc" : "data"), "response symbol #" + std::to_string(wpos) + " is " + hx(v) + ", expected " + (wpos < w.size() ? hx(w[wpos]) : std::string("nothing")) + " for telegram " + ref::hex(part));
+          return;
+        }
+        cands = keep; lastW = v; ph = RESP_ECHO;
+        return;
+      }
+      default:
+        fail(std::string("unexpected-write/") + phName(), "symbol " + hx(v) + " written while " + phName() + (part.empty() ? "" : " (telegram so far " + ref::hex(part) + ")"));
+        return;
+    }
+  }
+
+  void onDeliver(uint8_t v, int kind, bool) override {
+    if (failed) return;
+    bool syn = v == ref::SYN && kind == 0;
+    if ((ph == ACK_ECHO || ph == RESP_ECHO) && v != lastW) {
+      ph = PASSIVE;
+      if (syn) { ph = IDLE; resetPart(); attemptM = 1; dontCare = false; }
+      return;
+    }
+    if (ph == ACK_ECHO) {
+      if (lastW == ref::NAK) { ph = M; attemptM = 2; resetPart(); return; }
+      if (ref::isMaster(part[1])) { pendingReport = true; reportMaster = part; ph = PASSIVE; return; }
+      ph = RESP_SEND; wpos = 0; attemptS = 1;
+      return;
+    }
+    if (ph == RESP_ECHO) {
+      wpos++;
+      Bytes w = ref::wirePart(sc.answers[cands[0]].answer);
+      ph = wpos >= w.size() ? RESP_ACK : RESP_SEND;
+      return;
+    }
+    if (syn) { ph = IDLE; resetPart(); attemptM = 1; dontCare = false; return; }
+    switch (ph) {
+      case WAIT_SYN: case PASSIVE: return;
+      case IDLE:
+        if (!ref::isMaster(v)) { ph = PASSIVE; return; }
+        ph = M; attemptM = 1; resetPart();
+        collect(v);
+        return;
+      case M: collect(v); return;
+      case EXPECT_ACK:  // someone else acknowledged / talked before ebusd did
+        ph = PASSIVE; return;
+      case RESP_SEND:
+        ph = PASSIVE; return;
+      case RESP_ACK:
+        if (v == ref::ACK) { pendingReport = true; reportMaster = part; ph = PASSIVE; return; }
+        if (v == ref::NAK && attemptS == 1) { attemptS = 2; wpos = 0; ph = RESP_SEND; return; }
+        ph = PASSIVE; return;
+      default: return;
+    }
+  }
+  void collect(uint8_t v) {
+    if (part.empty() && !esc && !crcPos && !ref::isMaster(v)) { ph = PASSIVE; return; }
+    uint8_t u = v;
+    if (esc) {
+      if (v > 1) { ph = PASSIVE; return; }
+      u = v == 0 ? ref::ESC : ref::SYN;
+      if (!crcPos) crc = ref::crcStep(crc, v);
+      esc = false;
+    } else if (v == ref::ESC) {
+      esc = true;
+      if (!crcPos) crc = ref::crcStep(crc, v);
+      return;
+    } else if (!crcPos) {
+      crc = ref::crcStep(crc, v);
+    }
+    if (crcPos) {
+      good = (u == crc);
+      uint8_t zz = part[1];
+      if (zz == ref::BROADCAST || zz == part[0]) { ph = PASSIVE; return; }
+      if (part[4] > 16) { ph = WAIT_SYN; dontCare = true; return; }
+      cands = lookup(part);
+      if (good) {
+        if (cands.empty()) { ph = PASSIVE; return; }
+        expectAck = ref::ACK; ackMust = true; ph = EXPECT_ACK;
+        return;
+      }
+      if (attemptM == 2) { ph = PASSIVE; return; }
+      if (!cands.empty()) { expectAck = ref::NAK; ackMust = true; ph = EXPECT_ACK; return; }
+      if (dstRegistered(zz)) { expectAck = ref::NAK; ackMust = false; ph = EXPECT_ACK; return; }
+      ph = PASSIVE;
+      return;
+    }
+    part.push_back(u);
+    if (part.size() == 2 && !ref::isValidAddr(u)) { ph = PASSIVE; return; }
+    if (part.size() >= 5 && part.size() == 5u + part[4]) crcPos = true;
+  }
+  bool dontCare = false;
+
+  void onTimeout(int) override { if (failed) return; quiesce(); ph = WAIT_SYN; }
+  void onIoError(bool) override { ph = WAIT_SYN; }
+  void quiesce() {
+    if (ph == EXPECT_ACK) {
+      if (ackMust) fail(expectAck == ref::ACK ? "no-acknowledge" : "bad-crc-not-naked", std::string("ebusd stays passive instead of sending ") + (expectAck == ref::ACK ? "ACK" : "NAK") + " for telegram " + ref::hex(part) + " matching a registered answer");
+      ph = PASSIVE;
+    } else if (ph == RESP_SEND) {
+      fail("response-stopped", "ebusd stays passive instead of sending response symbol #" + std::to_string(wpos) + " for telegram " + ref::hex(part));
+    }
+    if (pendingReport) fail("missing-answer-report", "completed answer to " + ref::hex(reportMaster) + " was not reported");
+  }
+  void onQuiescent(bool buffered) override {
+    if (failed) return;
+    if (buffered) {
+      // further symbols already followed on the bus: the slot for acknowledging has passed
+      if (ph == EXPECT_ACK || ph == RESP_SEND) ph = PASSIVE;
+      return;
+    }
+    quiesce();
+  }
+  void onEnd() override { if (!failed && pendingReport) fail("missing-answer-report", "completed answer to " + ref::hex(reportMaster) + " was not reported"); }
+  void onReport(int dir, const Bytes& m, const Bytes& s) override {
+    if (failed || dir != 2) return;
+    if (dontCare) return;
+    if (!pendingReport) { fail("false-answer-report", "reported " + ref::hex(m) + " as answered although no answer exchange completed"); return; }
+    pendingReport = false;
+    if (m != reportMaster) { fail("answer-report-content", "reported " + ref::hex(m) + " instead of " + ref::hex(reportMaster)); return; }
+    if (!ref::isMaster(m[1])) {
+      bool ok = false;
+      for (int c : cands) if (sc.answers[c].answer == s) ok = true;
+      if (!ok) fail("answer-report-content", "reported response " + ref::hex(s) + " is not the registered answer");
+    }
+  }
+  void fingerprint(std::string* o) const override {
+    o->push_back((char)ph); o->push_back((char)(esc | (crcPos << 1) | (good << 2) | (ackMust << 3) | (pendingReport << 4) | (failed << 5) | (dontCare << 6)));
+    o->push_back((char)crc); o->push_back((char)(attemptM | (attemptS << 2))); o->push_back((char)expectAck); o->push_back((char)lastW); o->push_back((char)wpos);
+    o->push_back((char)part.size()); o->append((const char*)part.data(), part.size());
+    o->push_back((char)cands.size()); for (int c : cands) o->push_back((char)c);
+  }
+};
+
 }  // namespace bw
 
 #endif  // VERIF_BUSMON_H_
